@@ -7,6 +7,12 @@ CONC_NOTE = ("Proved for all interleavings of the atomic steps of any number of 
              "a weakened ordering is detected as a broken correspondence (… no-failing-input-found), it cannot be exhibited by an SC scheduler. ")
 
 META = {
+    "C19": dict(
+        text="Kernel-checked over the model of the generated code, for ALL declarations (any number of labels and values): path_resolves (the field path f1...fn denotes exactly the child {key_i -> value_i(f_i)}; undeclared field or wrong length denotes nothing), "
+             "try_get_some_iff_declared / try_get_field_has_value, get_enum_eq_field, child_independent_of_map_order (any order of the backing vector's label names), delegator_address (sum of recorded field offsets = address of the nested inline leaf). "
+             "Tie (programs): generated declarations compiled with the real proc-macro; every accessor query's observed child is compared with the model's answer and with the declaration-derived expectation.",
+        note="What the proc-macro emits is validated per generated program; flush delivery of local / auto-flush forms is observed (update + flush must change exactly the addressed child by exactly 1).",
+    ),
     "C20": dict(
         text="Kernel-checked over the arm table REGENERATED from src/macros.rs on every run: arms_expand_to_spec (decide +kernel: every arm of every exported macro accepts a trailing comma and, with nested invocations resolved by arity / marker tokens, fully expands to the explicit constructor call, "
              "registered in the named or the default registry and mapped to the registered handle - placeholders stand for all argument values), labels_macro_ok, macro_count. "
